@@ -48,6 +48,10 @@ SOFTWARE, EVEN IF ADVISED OF THE POSSIBILITY OF SUCH DAMAGE.
 #include <yara/unaligned.h>
 #include <yara/utils.h>
 
+#ifdef YARA_VERIF
+#include <yara/verif.h>
+#endif
+
 #define MEM_SIZE YR_MAX_LOOP_NESTING*(YR_MAX_LOOP_VARS + YR_INTERNAL_LOOP_VARS)
 
 #define push(x)                         \
@@ -483,8 +487,16 @@ int yr_execute_code(YR_SCAN_CONTEXT* context)
   memset(mem, 0, MEM_SIZE * sizeof(mem[0]));
 #endif
 
+#ifdef YARA_VERIF
+  YR_VERIF_AT(YR_VERIF_POINT_EXEC_START, context);
+#endif
+
   while (!stop)
   {
+#ifdef YARA_VERIF
+    yr_verif_vm_instructions++;
+#endif
+
     // Read the opcode from the address indicated by the instruction pointer.
     opcode = *ip;
 
@@ -1203,6 +1215,10 @@ int yr_execute_code(YR_SCAN_CONTEXT* context)
 
 #if YR_PARANOID_EXEC
       ensure_within_rules_arena(rule);
+#endif
+
+#ifdef YARA_VERIF
+      YR_VERIF_AT(YR_VERIF_POINT_MATCH_RULE, context);
 #endif
 
       if (!is_undef(r1) && r1.i)
@@ -1950,6 +1966,10 @@ int yr_execute_code(YR_SCAN_CONTEXT* context)
 
 #if YR_PARANOID_EXEC
       ensure_within_rules_arena(r1.p);
+#endif
+
+#ifdef YARA_VERIF
+      YR_VERIF_AT(YR_VERIF_POINT_IMPORT, context);
 #endif
 
       result = yr_modules_load((char*) r1.p, context);
